@@ -9,7 +9,7 @@ from harness import core, py2lean, instantiate
 from harness.core import Outcome, f2b, b2f
 
 ID = "C09"
-LEAN_TARGETS = ["BeyondVerif.Props.C09", "BeyondVerif.Witness.C09"]
+LEAN_TARGETS = ["BeyondVerif.Props.C09", "BeyondVerif.Props.C09Bound", "BeyondVerif.Props.C09Ephem", "BeyondVerif.Witness.C09"]
 THEOREMS = [
     "BeyondVerif.C09.prevIdx_total",
     "BeyondVerif.C09.prevIdx_spec",
@@ -31,7 +31,31 @@ THEOREMS = [
     "BeyondVerif.C09.fresh_reachable",
     "BeyondVerif.C09.interpolate_uses_current_coordinates",
     "BeyondVerif.C09.setters_write_through",
+    "BeyondVerif.C09.callRefuses_iff",
+    "BeyondVerif.C09.lagrangeRefuses_iff",
+    "BeyondVerif.C09.linearSlice_eq",
+    "BeyondVerif.C09.linearFormula_eq",
+    "BeyondVerif.C09.lagrangeFormula_eq",
+    "BeyondVerif.C09.lagrangeFormula_refuses",
+    "BeyondVerif.C09.prevIdx_at_node",
+    "BeyondVerif.C09.prevIdx_last_node",
+    "BeyondVerif.C09.interp_linear_last_node",
+    "BeyondVerif.C09.rolle_iter",
+    "BeyondVerif.C09.lagrange_remainder",
+    "BeyondVerif.C09.nodal_prod_bound",
+    "BeyondVerif.C09.lagrange_remainder_steps",
+    "BeyondVerif.C09.interp_lagrange_error_bound",
+    "BeyondVerif.C09.circular_bound_order8",
+    "BeyondVerif.C09.smooth_orbit_within_cm_partial",
+    "BeyondVerif.C09.ephem_glue_pinned",
+    "BeyondVerif.C09.iter_yields_pinned",
+    "BeyondVerif.C09.interpolate_result_is_new",
+    "BeyondVerif.C09.getitem_is_recorded",
+    "BeyondVerif.C09.mutate_new_object_noop",
+    "BeyondVerif.C09.history_ignores_modified_replies",
+    "BeyondVerif.C09.reply_function_of_current_values",
     "BeyondVerif.C09W.stale_scenario_now_consistent",
+    "BeyondVerif.C09W.alias_mutation_not_refreshed",
 ]
 LEVEL_TEXT = ("Lean theorems over R about a model of Interp (_prev_idx slicing search, the start/stop window arithmetic translated from interp.py on every run, "
               "Python slicing, the Lagrange and linear formulas) and of Ephem.interpolate: for every strictly increasing table, every order >= 2 (even and odd), "
@@ -641,7 +665,7 @@ def correspondence(ctx):
             {"xs": xs, "ys": ys, "x": x, "method": method, "order": order}, scale=scale, method=method)
         out.count(key=reqs[-1], nontrivial=kind == "ok", kind=f"call-{method}-{pos}", result=kind, variant=variant, order=order, style=style)
     # 4. Ephem objects: construction order, default method / order, frame + form of the result, conversion after a first interpolation
-    for _ in range(ctx.n(250, 4000)):
+    for _ in range(ctx.n(400, 6000)):
         eph_case(out, rng, add)
     replies = core.Driver(ID).run(reqs)
     for req, (kind, real, inp, kw), rep in zip(reqs, meta, replies):
@@ -689,10 +713,13 @@ def compare(out, kind, real, rep, inp, kw):
                 return
             if rk != "ok":
                 continue
-            if [toks[1], toks[2]] != rlabel[:2] or b2f(toks[3]) != rlabel[2]:
-                out.fail("ephem-label", "form / frame / date of the interpolated point differ", inp, observed=rlabel, expected=toks[1:4])
+            if toks[1] != rlabel[0]:
+                out.fail("ephem-identity", "the reply is a recorded point of the ephemeris (rec) / a new object (new): real code and Lean model differ", inp, observed=rlabel[0], expected=toks[1])
                 return
-            mv = [b2f(t) for t in toks[4:]]
+            if [toks[2], toks[3]] != rlabel[1:3] or b2f(toks[4]) != rlabel[3]:
+                out.fail("ephem-label", "form / frame / date of the reply differ", inp, observed=rlabel, expected=toks[1:5])
+                return
+            mv = [b2f(t) for t in toks[5:]]
             sc = kw["scale"]
             if len(mv) != len(rv) or not all(core.close(a, b, rtol=1e-10, atol=1e-300, scale=sc[c] if kw["lagrange"] else max(abs(a), abs(b))) for c, (a, b) in enumerate(zip(rv, mv))):
                 out.fail("ephem-value", "coordinates differ between Ephem.interpolate and the Lean model", inp, observed=rv, expected=mv)
@@ -700,8 +727,12 @@ def compare(out, kind, real, rep, inp, kw):
 
 
 def eph_case(out, rng, add):
+    """one random history on one Ephem object, replayed on the Lean state machine `EphH`:
+    I interpolate / P propagate / T iter(dates=…) / S iter(start, stop, step) (= propagate at every date) / G ephem[i] /
+    W in-place modification by the caller of an object it received / O, M order and method setters / C frame or form setter"""
     import numpy as np
     from beyond.dates import timedelta
+    from beyond.orbits import Ephem
     d0 = base_date()
     order = rng.choice([None, None, 2, 3, 5, 8, 8, 11, 12])
     eff = 8 if order is None else order
@@ -709,9 +740,9 @@ def eph_case(out, rng, add):
     method = rng.choice([None, None, "lagrange", "linear"])
     times, step, uniform = gen_times(rng, n)
     hetero = rng.random() < 0.15
-    kep, period, sma, ecc = kepler_ephem(rng)
-    scenario = rng.choice(["plain", "setters", "setters", "convert-form", "convert-frame"]) if not hetero else "plain"
-    if scenario in ("plain", "setters"):
+    scenario = rng.choice(["plain", "setters", "setters", "convert-form", "convert-frame", "objects", "objects", "objects", "objects"]) if not hetero else "plain"
+    keplerian = scenario.startswith("convert") or (scenario == "objects" and rng.random() < 0.5)
+    if not keplerian:
         coords = [[rng.uniform(-1, 1) * (7e6 if c < 3 else 7e3) for c in range(6)] for _ in range(n)]
         forms = [rng.choice(["cartesian", "keplerian"]) for _ in range(n)] if hetero else [rng.choice(["cartesian", "keplerian", "spherical"])] * n
         frames = [rng.choice(["EME2000", "ITRF"]) for _ in range(n)] if hetero else [rng.choice(["EME2000", "MOD", "ITRF"])] * n
@@ -719,8 +750,8 @@ def eph_case(out, rng, add):
         given = list(eph._orbits)
         rng.shuffle(given)     # the model receives the points in an arbitrary order as well and sorts them itself
     else:
+        kep, period, sma, ecc = kepler_ephem(rng)
         pts = [kep.propagate(d0 + timedelta(seconds=t)).copy(form="cartesian") for t in times]
-        from beyond.orbits import Ephem
         eph = Ephem(pts, method=method, order=order)
         given = list(eph._orbits)
 
@@ -730,59 +761,113 @@ def eph_case(out, rng, add):
     toks = ["c9eph", {None: "none", "lagrange": "g", "linear": "l"}[method], "none" if order is None else str(order), str(n), "6"]
     for o in given:
         toks += pt_tokens(o)
-    real = []
-    nq = rng.randint(1, 3)
-    ysnap = np.array([np.asarray(o, dtype=float) for o in eph._orbits])
-    xsnap = [o.date._mjd for o in eph._orbits]
+    real, objs, kinds, trace = [], [], [], []
+    amax = [np.abs(np.array([np.asarray(o, dtype=float) for o in eph._orbits])).max(axis=0)]
 
-    def do_interp(t):
-        from beyond.utils.interp import Interp
-        dq = d0 + timedelta(seconds=t)
-        kind, r = error_kind(lambda: eph.interpolate(dq))
-        toks.extend(["I", f2b(dq._mjd)])
+    def reply(kind, r):
+        """record the reply of the real object in the driver's format; `new` = none of the recorded points"""
+        kinds.append(kind)
         if kind == "ok":
-            real.append(("ok", [str(r.form), str(r.frame), r.date._mjd], [float(v) for v in np.asarray(r, dtype=float)]))
+            isrec = any(r is o for o in eph._orbits)
+            real.append(("ok", ["rec" if isrec else "new", str(r.form), str(r.frame), r.date._mjd], [float(v) for v in np.asarray(r, dtype=float)]))
+            objs.append(r)
         else:
             real.append((kind, None, None))
-        return kind
+            objs.append(None)
 
-    qs = []
-    for _ in range(nq):
+    def query():
         if n >= 2 and rng.random() < 0.85:
-            t, pos = gen_query(rng, times)
+            return gen_query(rng, times)
+        return rng.choice([(q(times[0] - 1.0), "outside"), (q(times[-1] + 0.5), "outside"), (times[0], "node"), (times[-1], "node")])
+
+    def op_interp(t, via):
+        dq = d0 + timedelta(seconds=t)
+        if via == "T":          # iter(dates=…) is propagate at every date
+            kind, r = error_kind(lambda: list(eph.iter(dates=[dq])))
+            r = r[0] if kind == "ok" else r
         else:
-            t, pos = rng.choice([(q(times[0] - 1.0), "outside"), (q(times[-1] + 0.5), "outside"), (times[0], "node")])
-        qs.append((t, pos))
-    kinds = []
+            kind, r = error_kind(lambda: (eph.interpolate if via == "I" else eph.propagate)(dq))
+        toks.extend(["I" if via == "I" else "P", f2b(dq._mjd)])
+        trace.append(via)
+        reply(kind, r)
+
     any_lagrange = method in (None, "lagrange")
-    if scenario != "setters" or rng.random() < 0.75:      # setters are also exercised before the first interpolation
-        kinds.append(do_interp(qs[0][0]))
-    if scenario == "setters":
-        for _ in range(rng.randint(1, 2)):
+    first = query()
+    nops = rng.randint(2, 6)
+    for k in range(nops):
+        r = rng.random()
+        if scenario == "plain" or r < 0.45 or (k == nops - 1):
+            t, pos = first if (k == nops - 1 and scenario != "plain") else query()
+            op_interp(t, rng.choice(["I", "I", "I", "P", "T"]))
+        elif scenario == "setters":
             if rng.random() < 0.7:
                 k2 = rng.choice([2, 3, 4, 7, 8, 9, 12, rng.randint(1, 12)])
                 eph.order = k2
                 toks.extend(["O", str(k2)])
+                trace.append("O")
             else:
                 m2 = rng.choice(["lagrange", "linear"])
                 eph.method = m2
                 toks.extend(["M", "g" if m2 == "lagrange" else "l"])
                 any_lagrange = any_lagrange or m2 == "lagrange"
-    elif scenario != "plain":
-        if scenario == "convert-form":
-            eph.form = rng.choice(["keplerian", "spherical"])
-        else:
-            eph.frame = rng.choice(["ITRF", "MOD", "TEME"])
-        toks.append("C")
-        for o in eph._orbits:
-            toks += pt_tokens(o)
-    for t, pos in qs[1:] + ([qs[0]] if scenario != "plain" else []):
-        kinds.append(do_interp(t))
-    scale = [float(np.max(np.abs(ysnap[:, c]))) * 1e3 for c in range(6)]   # |l_j| sum bounded by ~1e3 up to order 12 inside the table
-    add(" ".join(toks), "eph", real, {"times": times, "order": order, "method": method, "scenario": scenario, "queries": qs}, scale=scale,
+                trace.append("M")
+        elif scenario.startswith("convert"):
+            if scenario == "convert-form":
+                eph.form = rng.choice(["keplerian", "spherical", "cartesian"])
+            else:
+                eph.frame = rng.choice(["ITRF", "MOD", "TEME", "EME2000"])
+            toks.append("C")
+            for o in eph._orbits:
+                toks += pt_tokens(o)
+            trace.append("C")
+            amax.append(np.abs(np.array([np.asarray(o, dtype=float) for o in eph._orbits])).max(axis=0))
+        else:   # objects: index reads, a stepped iteration, in-place modifications of received objects
+            r2 = rng.random()
+            held = [j for j, o in enumerate(objs) if o is not None]
+            if r2 < 0.2:
+                i = rng.choice([0, -1, n - 1, rng.randrange(-n - 1, n + 1)])
+                kind, r = error_kind(lambda: eph[i])
+                toks.extend(["G", str(i)])
+                trace.append("G")
+                reply(kind, r)
+            elif r2 < 0.3 and n >= 2:
+                i = rng.randrange(n - 1)
+                st = q((times[i + 1] - times[i]) * rng.choice([0.5, 0.25, 1.0]))
+                kind, r = error_kind(lambda: list(eph.iter(start=d0 + timedelta(seconds=times[i]), stop=d0 + timedelta(seconds=times[i + 1]), step=timedelta(seconds=st))))
+                trace.append("S")
+                if kind == "ok":
+                    for o in r:
+                        toks.extend(["P", f2b(o.date._mjd)])
+                        reply("ok", o)
+                else:       # refused as a whole: the first date already is (the model says the same about it)
+                    toks.extend(["P", f2b((d0 + timedelta(seconds=times[i]))._mjd)])
+                    reply(kind, r)
+            elif held:
+                j = rng.choice(held)
+                o = objs[j]
+                how = rng.choice(["values", "values", "form", "frame"]) if keplerian else "values"
+                isrec = any(o is x for x in eph._orbits)
+                try:
+                    if how == "values":
+                        o[:] = np.asarray(o, dtype=float) * 1.5 + 1.0
+                    elif how == "form":
+                        o.form = "keplerian" if str(o.form) != "keplerian" else "cartesian"
+                    else:
+                        o.frame = "ITRF" if str(o.frame) != "ITRF" else "EME2000"
+                except Exception:  # noqa  a conversion that the library refuses changes nothing
+                    continue
+                toks.extend(["W", str(j)] + pt_tokens(o))
+                trace.append("W-rec-" + how if isrec else "W-new-" + how)
+                amax.append(np.abs(np.array([np.asarray(x, dtype=float) for x in eph._orbits])).max(axis=0))
+            else:
+                op_interp(*query()[:1], "I")
+    scale = [float(max(a[c] for a in amax)) * 1e3 for c in range(6)]   # |l_j| sum bounded by ~1e3 up to order 12 inside the table
+    add(" ".join(toks), "eph", real, {"times": times, "order": order, "method": method, "scenario": scenario, "history": trace}, scale=scale,
         lagrange=any_lagrange)
-    out.count(key=" ".join(toks[:40]) + str(qs) + " ".join(t for t in toks if t in ("O", "M")), nontrivial="ok" in kinds, kind="ephem-" + scenario, method=method, order=order, hetero=hetero,
-              results="+".join(kinds))
+    for t in trace:
+        out.tally("ephem-op=" + t)
+    out.count(key=" ".join(toks[:40]) + " ".join(trace) + str(len(toks)), nontrivial="ok" in kinds, kind="ephem-" + scenario, method=method, order=order, hetero=hetero,
+              results="+".join(sorted(set(kinds))), history_len=len(trace))
 
 # ---------------------------------------------------------------- oracle on the real API
 
@@ -982,6 +1067,10 @@ def oracle(ctx, widened):
     for _ in range(300 if big else 40):
         setter_case(out, rng)
 
+    # ---- 3d. what the ephemeris hands out is a new object: modifying it in place never reaches the table
+    for _ in range(400 if big else 50):
+        alias_case(out, rng)
+
     # ---- 4. a smooth orbit sampled well below its period: centimetres, at the ends as in the middle
     for _ in range(150 if big else 20):
         orbit_case(out, rng)
@@ -1085,6 +1174,72 @@ def scale_case(out, rng):
                          inp, observed=a.tolist(), expected=b.tolist())
             elif not (r.date == dq if exact else abs((r.date - dq).total_seconds()) <= 2e-6):
                 out.fail(f"scale-dependence/{sc}/date", "the interpolated point is not dated at the requested instant", inp, observed=str(r.date), expected=str(dq))
+
+
+def alias_case(out, rng):
+    """get a point from the ephemeris through every API that computes one (interpolate, propagate, iter(dates=…), iter(step=…),
+    iter() without step, ephem()), at a node or between nodes; it must be none of the recorded objects, and converting / overwriting
+    it in place must leave the table and every later answer unchanged"""
+    import numpy as np
+    from beyond.orbits import Ephem
+    from beyond.dates import timedelta
+    d0 = base_date()
+    kep, period, sma, ecc = kepler_ephem(rng)
+    method = rng.choice(["lagrange", "lagrange", "linear"])
+    order = rng.choice([2, 3, 8, 8, 9])
+    n = rng.randint(max(order, 3), 20)
+    step = q(period / 100, 1.0)
+    times = [q(i * step) for i in range(n)]
+    pts = [kep.propagate(d0 + timedelta(seconds=t)).copy(form="cartesian") for t in times]
+    eph = Ephem(pts, method=method, order=order)
+    warm = rng.random() < 0.5
+    if warm:
+        error_kind(lambda: eph.interpolate(d0 + timedelta(seconds=gen_query(rng, times, "interior")[0])))
+    api = rng.choice(["interpolate", "interpolate", "propagate", "iter-dates", "iter-step", "iter-plain", "ephem"])
+    where = rng.choice(["node", "node", "first-node", "last-node", "interior", "first", "last"])
+    j = 0 if where == "first-node" else n - 1 if where == "last-node" else rng.randrange(n)
+    t, pos = (times[j], "node") if where.endswith("node") else gen_query(rng, times, where)
+    if api in ("iter-plain", "ephem"):
+        t, pos = times[j], "node"
+    dq = d0 + timedelta(seconds=t)
+    inp = {"kep": list(map(float, kep)), "times": times, "t": t, "method": method, "order": order, "api": api, "interpolated_before": warm}
+    get = {"interpolate": lambda: eph.interpolate(dq), "propagate": lambda: eph.propagate(dq),
+           "iter-dates": lambda: list(eph.iter(dates=[dq]))[0],
+           "iter-step": lambda: list(eph.iter(start=dq, stop=dq, step=timedelta(seconds=step)))[0],
+           "iter-plain": lambda: [o for o in eph.iter() if o.date == dq][0],
+           "ephem": lambda: [o for o in eph.ephem() if o.date == dq][0]}[api]
+    r = guarded(out, f"inside-refused/{api}/{pos}", inp, get)
+    if r is None:
+        return
+    out.count(key=("alias", api, method, order, sma, t, warm), kind=f"new-object-{api}-{pos}", method=method)
+    if any(r is o for o in eph._orbits):
+        out.fail(f"result-is-recorded-point/{api}/{pos}", f"Ephem.{api} hands out the recorded point itself, not a new object", inp,
+                 observed="the very element of the table", expected="a new object")
+        return
+    snap = [(np.array(o, dtype=float), str(o.form), str(o.frame), o.date) for o in eph._orbits]
+    before = guarded(out, f"inside-refused/{api}/{pos}", inp, lambda: eph.interpolate(dq))
+    t2, pos2 = gen_query(rng, times, "interior")
+    before2 = guarded(out, f"inside-refused/interpolate/{pos2}", inp, lambda: eph.interpolate(d0 + timedelta(seconds=t2)))
+    if before is None or before2 is None:
+        return
+    how = rng.choice(["form", "frame", "values"])
+    if how == "form":
+        r.form = "keplerian"
+    elif how == "frame":
+        r.frame = "ITRF"
+    else:
+        r[:] = np.asarray(r, dtype=float) * 2.0 + 1.0
+    same_table = all(np.array_equal(np.asarray(o, dtype=float), a) and str(o.form) == fo and str(o.frame) == fr and o.date == da
+                     for o, (a, fo, fr, da) in zip(eph._orbits, snap))
+    after = guarded(out, f"inside-refused/{api}/{pos}", inp, lambda: eph.interpolate(dq))
+    after2 = guarded(out, f"inside-refused/interpolate/{pos2}", inp, lambda: eph.interpolate(d0 + timedelta(seconds=t2)))
+    if after is None or after2 is None:
+        return
+    same_answer = all(np.array_equal(np.asarray(a, dtype=float), np.asarray(b, dtype=float)) and str(a.form) == str(b.form) and str(a.frame) == str(b.frame)
+                      for a, b in ((before, after), (before2, after2)))
+    if not (same_table and same_answer):
+        out.fail(f"result-aliases-table/{api}/{how}", f"changing in place ({how}) the point received from Ephem.{api} changes the ephemeris", dict(inp, t2=t2),
+                 observed={"table_unchanged": same_table, "answers_unchanged": same_answer}, expected="table and answers unchanged")
 
 
 def setter_case(out, rng):
